@@ -744,7 +744,7 @@ fn main_random(args: &[String]) {
             let mut next_id = 1u64;
             let ops: &[&str] = match mode.as_str() {
                 "part" => &["partition", "partition_oneway", "repair", "repair_oneway"],
-                "hold" => &["hold", "release"],
+                "hold" => &["hold", "release", "hold", "release", "repair"],
                 _ => &[],
             };
             for _s in 0..steps {
